@@ -112,6 +112,18 @@ func main() {
 			case len(all) > 0 && rr.Chance(80):
 				pick := rr.Intn(len(all))
 				raw, preferred = vtmpl.Path(rr, all[pick]), allMethods[pick]
+				// the verb of ANOTHER binding with the same HTTP method on a path built for this one
+				if rr.Chance(40) {
+					var cands []int
+					for j := range all {
+						if j != pick && all[j].Verb != "" && all[j].Verb != all[pick].Verb && allMethods[j] == allMethods[pick] {
+							cands = append(cands, j)
+						}
+					}
+					if len(cands) > 0 {
+						raw += ":" + all[cands[rr.Intn(len(cands))]].Verb
+					}
+				}
 			case rr.Chance(50):
 				raw = fmt.Sprintf("/pkg%d.Svc%d/M%d", rr.Intn(nt), rr.Intn(2), rr.Intn(3))
 			default:
